@@ -75,7 +75,7 @@ func (v Val) SQL() string {
 	case "dec":
 		return DecText(v.I, v.S)
 	default:
-		return "'" + strings.ReplaceAll(strings.ReplaceAll(v.B, "\\", "\\\\"), "'", "''") + "'"
+		return "'" + strings.ReplaceAll(strings.ReplaceAll(strings.ReplaceAll(v.B, "\\", "\\\\"), "'", "''"), "\x00", "\\0") + "'"
 	}
 }
 
